@@ -5,6 +5,7 @@ import (
 	"go/constant"
 	"go/token"
 	"go/types"
+	"sort"
 	"strings"
 
 	"golang.org/x/tools/go/ssa"
@@ -501,6 +502,8 @@ func checkC20(c *Check) {
 	}
 	// R20.8 client typestate
 	ruleClientTypestate(c, p, handler, "Writer", "compress")
+	ruleFramesFinished(c, p, handler)
+	c.RuleDoc["R20.12"] = "every frame lz4c starts is finished: Close before the Writer is re-targeted and before success is reported"
 	if uh != nil {
 		ruleClientTypestate(c, p, uh, "Reader", "uncompress")
 	}
@@ -1004,4 +1007,190 @@ func levelTableOf(v ssa.Value) (map[uint64]uint64, uint64, bool) {
 		}
 	}
 	return tab, uint64(arr.Len()), good
+}
+
+// R20.12: every frame lz4c starts is finished. Abstract execution of the
+// compress handler over the shared Writer's client-side states {idle, open}:
+// io.Copy into the Writer opens a frame, Writer.Close (called directly, or
+// through a slice of io.Closer that is ranged over calling Close) finishes it.
+// A frame must not be open when the Writer is pointed at another file (Reset
+// discards what has not been flushed and never writes the end mark), nor when
+// the handler returns without an error.
+func ruleFramesFinished(c *Check, p *Program, h *ssa.Function) {
+	const (
+		sIdle = 1 << iota
+		sOpen
+	)
+	isWriterVal := func(v ssa.Value) bool {
+		return strings.HasSuffix(v.Type().String(), "lz4/v4.Writer")
+	}
+	// stores that put the Writer into a list of closers whose elements are closed by a loop
+	closerStores := map[ssa.Instruction]bool{}
+	allInstrs(h, func(in ssa.Instruction) {
+		st, ok := in.(*ssa.Store)
+		if !ok {
+			return
+		}
+		mi, isMI := st.Val.(*ssa.MakeInterface)
+		ia, isIA := st.Addr.(*ssa.IndexAddr)
+		if !isMI || !isIA || !isWriterVal(mi.X) {
+			return
+		}
+		arr := ia.X
+		// an invoke of Close on an element of (a slice of) the same array
+		closed := false
+		allInstrs(h, func(j ssa.Instruction) {
+			ci, isC := j.(ssa.CallInstruction)
+			if !isC || !ci.Common().IsInvoke() || ci.Common().Method.Name() != "Close" {
+				return
+			}
+			walkBack(ci.Common().Value, false, func(v ssa.Value) bool {
+				if v == arr {
+					closed = true
+				}
+				return true
+			})
+		})
+		if closed {
+			closerStores[in] = true
+		}
+	})
+	in := map[*ssa.BasicBlock]int{}
+	work := []*ssa.BasicBlock{h.Blocks[0]}
+	in[h.Blocks[0]] = sIdle
+	type finding struct{ what string }
+	bad := map[ssa.Instruction]string{}
+	nCopy, nClose := 0, 0
+	seenEv := map[ssa.Instruction]bool{}
+	deferredClose := false
+	for len(work) > 0 {
+		b := work[len(work)-1]
+		work = work[:len(work)-1]
+		cur := in[b]
+		for _, i := range b.Instrs {
+			if closerStores[i] {
+				if !seenEv[i] {
+					seenEv[i] = true
+					nClose++
+				}
+				cur = sIdle
+				continue
+			}
+			if _, isRD := i.(*ssa.RunDefers); isRD && deferredClose {
+				cur = sIdle
+				continue
+			}
+			if r, isR := i.(*ssa.Return); isR {
+				if cur&sOpen != 0 && len(r.Results) > 0 {
+					e := r.Results[len(r.Results)-1]
+					// with defer statements in the function the results travel through result cells
+					if ld, isL := e.(*ssa.UnOp); isL && ld.Op == token.MUL {
+						if _, isAl := ld.X.(*ssa.Alloc); isAl {
+							for _, j := range b.Instrs {
+								if st, isS := j.(*ssa.Store); isS && st.Addr == ld.X {
+									e = st.Val
+								}
+							}
+						}
+					}
+					if call, isCall := e.(*ssa.Call); isCall && isLz4(staticCallee(call), "Writer.Close") {
+						continue
+					}
+					if isErrorType(e.Type()) && mayBeNilErr(e, b) {
+						definitelyFailed := false
+						for _, a := range atomsOfBlock(b) {
+							if a.Kind == "errnil" && !a.Val && a.V == e {
+								definitelyFailed = true
+							}
+						}
+						if !definitelyFailed {
+							bad[i] = "the handler can return without an error while the frame written by io.Copy has not been closed: no end mark and no content checksum reach the output"
+						}
+					}
+				}
+				continue
+			}
+			ci, ok := i.(ssa.CallInstruction)
+			if !ok {
+				continue
+			}
+			f := staticCallee(ci)
+			switch {
+			case isLz4(f, "NewWriter"):
+				cur = sIdle
+			case isLz4(f, "Writer.Reset"):
+				if cur&sOpen != 0 {
+					bad[i] = "the Writer is pointed at the next output while the previous frame may still be open: Reset discards it without writing the end mark (every output file but the last is truncated)"
+				}
+				cur = sIdle
+			case isLz4(f, "Writer.Close"):
+				if _, isDefer := i.(*ssa.Defer); isDefer {
+					// runs when the handler returns, not here
+					if i.Block() == h.Blocks[0] || i.Block().Dominates(i.Block()) {
+						// only a registration outside any loop finishes the one frame of the run
+						inLoop := false
+						seen := map[*ssa.BasicBlock]bool{}
+						var dfs func(x *ssa.BasicBlock)
+						dfs = func(x *ssa.BasicBlock) {
+							if seen[x] {
+								return
+							}
+							seen[x] = true
+							for _, s := range x.Succs {
+								if s == i.Block() {
+									inLoop = true
+								}
+								dfs(s)
+							}
+						}
+						dfs(i.Block())
+						if !inLoop {
+							deferredClose = true
+						}
+					}
+					continue
+				}
+				if !seenEv[i] {
+					seenEv[i] = true
+					nClose++
+				}
+				cur = sIdle
+			case calleeIs(ci, "io", "Copy"):
+				if len(ci.Common().Args) > 0 {
+					if mi, isMI := ci.Common().Args[0].(*ssa.MakeInterface); isMI && isWriterVal(mi.X) {
+						if !seenEv[i] {
+							seenEv[i] = true
+							nCopy++
+						}
+						cur = sOpen
+					}
+				}
+			}
+		}
+		for _, s := range b.Succs {
+			if in[s]|cur != in[s] {
+				in[s] |= cur
+				work = append(work, s)
+			}
+		}
+	}
+	if nCopy == 0 {
+		c.Fail("R20.12", "lz4c.compress#frames-finished", p.Pos(h.Pos()), "the copies into the shared Writer are resolved", "no io.Copy into the Writer found in the compress handler (anchor unresolved)")
+		return
+	}
+	c.Sites += nCopy + nClose
+	if len(bad) == 0 {
+		c.OK("R20.12", "lz4c.compress#frames-finished", p.Pos(h.Pos()), "every frame started by io.Copy into the Writer is closed before the Writer is re-targeted and before the handler reports success", fmt.Sprintf("abstract execution over {idle, open}: %d copy site(s), %d close site(s)", nCopy, nClose), true)
+		return
+	}
+	var keys []ssa.Instruction
+	for at := range bad {
+		keys = append(keys, at)
+	}
+	sort.Slice(keys, func(a, b int) bool { return keys[a].Pos() < keys[b].Pos() })
+	var all []string
+	for _, k := range keys {
+		all = append(all, p.InstrPos(k)+": "+bad[k])
+	}
+	c.Fail("R20.12", "lz4c.compress#frames-finished", p.InstrPos(keys[0]), "every frame started by io.Copy into the Writer is closed before the Writer is re-targeted and before the handler reports success", strings.Join(all, " | "))
 }
